@@ -847,17 +847,29 @@ func existsExitBeforeHead(b *ssa.BasicBlock, lp *loopInfo) bool {
 
 /* ---------- C01.order ---------- */
 
+// localCarrier: a struct type declared inside a function (or anonymous): a carrier of values, not state of the module.
+func localCarrier(t types.Type) bool {
+	if pt, ok := t.Underlying().(*types.Pointer); ok {
+		t = pt.Elem()
+	}
+	if n, ok := t.(*types.Named); ok {
+		return n.Obj().Pkg() != nil && n.Obj().Parent() != n.Obj().Pkg().Scope()
+	}
+	_, isStruct := t.(*types.Struct)
+	return isStruct
+}
+
 func fieldsRead(fn *ssa.Function) []string {
 	set := map[string]bool{}
 	for _, b := range fn.Blocks {
 		for _, in := range b.Instrs {
 			switch x := in.(type) {
 			case *ssa.FieldAddr:
-				if fv := fieldVar(x.X.Type(), x.Field); fv != nil {
+				if fv := fieldVar(x.X.Type(), x.Field); fv != nil && !localCarrier(x.X.Type()) {
 					set[refName(fv)] = true
 				}
 			case *ssa.Field:
-				if fv := fieldVar(x.X.Type(), x.Field); fv != nil {
+				if fv := fieldVar(x.X.Type(), x.Field); fv != nil && !localCarrier(x.X.Type()) {
 					set[refName(fv)] = true
 				}
 			}
